@@ -20,6 +20,9 @@ import (
 	"time"
 
 	sdkmath "cosmossdk.io/math"
+	wasmkeeper "github.com/CosmWasm/wasmd/x/wasm/keeper"
+	wasmvmtypes "github.com/CosmWasm/wasmvm/v2/types"
+	"github.com/cosmos/gogoproto/proto"
 	storetypes "cosmossdk.io/store/types"
 	sdk "github.com/cosmos/cosmos-sdk/types"
 	skywaytypes "github.com/palomachain/paloma/v2/x/skyway/types"
@@ -106,6 +109,8 @@ type checker struct {
 	unattrib  map[string]int
 	exempted  map[string]int
 	deliveries int
+	wasmForgeable map[string]bool
+	panics        []string
 }
 
 func run(r *report.Run, replayFile string, dump bool) {
@@ -114,10 +119,10 @@ func run(r *report.Run, replayFile string, dump bool) {
 	e.stores = e.storeKeys()
 	e.principals = []*principal{
 		mkPrincipal(e.B, []byte(sdk.ConsAddress(e.w.Vals[0].Cons.PubKey().Address()))),
-		mkPrincipal(e.U), mkPrincipal(e.G), mkPrincipal(e.L), mkPrincipal(e.M), mkPrincipal(e.A),
+		mkPrincipal(e.U), mkPrincipal(e.G), mkPrincipal(e.L), mkPrincipal(e.M), mkPrincipal(e.A), mkPrincipal(e.C),
 	}
 	c := &checker{e: e, r: r, tmpls: e.templates(), fields: map[string][]idField{}, before: map[string]projection{},
-		stage: map[string]int{}, unattrib: map[string]int{}, exempted: map[string]int{}}
+		wasmForgeable: map[string]bool{}, stage: map[string]int{}, unattrib: map[string]int{}, exempted: map[string]int{}}
 	if dump {
 		c.dump()
 		return
@@ -175,6 +180,18 @@ func (c *checker) types() (routable, unroutable, untemplated []string) {
 	return
 }
 
+func (c *checker) attacker(variant string) *actor {
+	if variant == "wasm" {
+		return c.e.C
+	}
+	return c.e.A
+}
+
+// actorsOf: the identities written into messages; the first is the attacker.
+func (c *checker) actorsOf(variant string) []*actor {
+	return append([]*actor{c.attacker(variant)}, c.e.actors[1:]...)
+}
+
 func (c *checker) root(variant string) sdk.Context {
 	if variant == "grant" {
 		return c.e.rootGrant
@@ -224,8 +241,8 @@ func (c *checker) build(cs caseSpec) sdk.Msg {
 			assign(msg, f, c.e.byName[name])
 		}
 	}
-	// A is the only signer
-	assign(msg, idField{Path: "Metadata.Signers[0]", Kind: kAcc}, c.e.A)
+	// the attacker is the only signer
+	assign(msg, idField{Path: "Metadata.Signers[0]", Kind: kAcc}, c.attacker(cs.Variant))
 	for _, v := range c.e.variantsOf(cs.Type) {
 		if v.Name == cs.SigVar && v.Apply != nil {
 			v.Apply(c.e, msg)
@@ -244,7 +261,12 @@ type outcome struct {
 func (c *checker) deliver(cs caseSpec) outcome {
 	ctx, before := c.prepared(cs.Type, cs.Variant)
 	msg := c.build(cs)
-	res := c.e.w.DeliverTx(ctx, []*world.Actor{c.e.keys["A"]}, msg)
+	var res world.TxResult
+	if cs.Variant == "wasm" {
+		res = c.dispatchFromContract(ctx, msg)
+	} else {
+		res = c.e.w.DeliverTx(ctx, []*world.Actor{c.e.keys["A"]}, msg)
+	}
 	c.deliveries++
 	after := c.e.project(ctx)
 	free := map[string]bool{}
@@ -261,6 +283,30 @@ func (c *checker) deliver(cs caseSpec) outcome {
 	o := outcome{Res: res}
 	o.Viol, o.Changed, o.OwnA = c.judge(before, after, free, allow)
 	return o
+}
+
+// dispatchFromContract delivers msg the way x/wasm delivers a CosmosMsg::Any
+// returned by contract C: wasmd's SDKMessageHandler (ValidateBasic, signers ==
+// contract address, router handler) inside a cache context. No ante handler runs.
+func (c *checker) dispatchFromContract(ctx sdk.Context, msg sdk.Msg) (res world.TxResult) {
+	defer func() {
+		if r := recover(); r != nil {
+			res = world.TxResult{Err: fmt.Errorf("panic: %v", r), Stage: "panic"}
+		}
+	}()
+	app := c.e.w.App
+	bz, err := app.AppCodec().Marshal(msg.(proto.Message))
+	if err != nil {
+		return world.TxResult{Err: err, Stage: "build"}
+	}
+	h := wasmkeeper.NewSDKMessageHandler(app.AppCodec(), app.MsgServiceRouter(), wasmkeeper.DefaultEncoders(app.AppCodec(), nil))
+	cc, write := ctx.CacheContext()
+	_, _, _, err = h.DispatchMsg(cc, c.e.C.Acc, "", wasmvmtypes.CosmosMsg{Any: &wasmvmtypes.AnyMsg{TypeURL: sdk.MsgTypeURL(msg), Value: bz}})
+	if err != nil {
+		return world.TxResult{Err: err, Stage: "wasm"}
+	}
+	write()
+	return world.TxResult{}
 }
 
 var denomOwnedKinds = map[string]bool{
@@ -356,7 +402,7 @@ func (c *checker) judge(before, after projection, free map[string]bool, allow fu
 			}
 			viol = append(viol, *ch)
 		}
-		if ob["A"] || oa["A"] {
+		if ob["A"] || oa["A"] || ob["C"] || oa["C"] {
 			ownA++
 			attributed = true
 		}
@@ -376,7 +422,7 @@ func (c *checker) judge(before, after projection, free map[string]bool, allow fu
 func (c *checker) ownKey(r *rec, free map[string]bool) bool {
 	lower := []byte(strings.ToLower(string(r.Key)))
 	for _, p := range c.e.principals {
-		if (p.Name == "A" || free[p.Name]) && p.in(r.Key, lower) {
+		if (p.Name == "A" || p.Name == "C" || free[p.Name]) && p.in(r.Key, lower) {
 			return true
 		}
 	}
@@ -431,7 +477,11 @@ func errClass(res world.TxResult) string {
 
 func (c *checker) describe(cs caseSpec, o outcome) string {
 	var sb strings.Builder
-	fmt.Fprintf(&sb, "%s\n  signed by A only; result: %s\n", cs, errClass(o.Res))
+	by := "signed by A only"
+	if cs.Variant == "wasm" {
+		by = "dispatched as CosmosMsg::Any by contract C (signers=[C], no ante)"
+	}
+	fmt.Fprintf(&sb, "%s\n  %s; result: %s\n", cs, by, errClass(o.Res))
 	for _, v := range o.Viol {
 		fmt.Fprintf(&sb, "  %s %s of %s (%s): %s\n", v.Op, v.Kind, v.Victim, c.e.byNameOrM(v.Victim).Role, v.ID)
 	}
@@ -466,15 +516,16 @@ func (c *checker) shrink(cs caseSpec, o outcome) (caseSpec, outcome) {
 		paths = append(paths, p)
 	}
 	sort.Strings(paths)
+	att := c.attacker(cs.Variant).Name
 	for _, p := range paths {
-		if cs.Assign[p] == "A" {
+		if cs.Assign[p] == att {
 			continue
 		}
 		try := caseSpec{Type: cs.Type, Variant: cs.Variant, SigVar: cs.SigVar, Assign: map[string]string{}}
 		for k, v := range cs.Assign {
 			try.Assign[k] = v
 		}
-		try.Assign[p] = "A"
+		try.Assign[p] = att
 		if o2 := c.deliver(try); len(o2.Viol) > 0 && victims(o2.Viol) == want {
 			cs, o = try, o2
 		}
@@ -486,16 +537,27 @@ func (c *checker) shrink(cs caseSpec, o outcome) (caseSpec, outcome) {
 // through which somebody other than the signer is named (after shrinking).
 func (c *checker) signature(cs caseSpec, o outcome) string {
 	var fs []string
+	creator := false
 	for p, a := range cs.Assign {
-		if a != "A" {
+		if a != c.attacker(cs.Variant).Name {
 			fs = append(fs, p)
+			if p == "Metadata.Creator" {
+				creator = true
+			}
 		}
 	}
 	sort.Strings(fs)
 	if len(fs) == 0 {
 		fs = []string{"-"}
 	}
+	if cs.Variant == "wasm" && creator {
+		// one defect: the contract path never authenticates metadata.creator
+		return "wasm:creator-unauthenticated"
+	}
 	s := "forge:" + shortType(cs.Type) + ":" + strings.Join(fs, ",")
+	if cs.Variant == "wasm" {
+		s = "wasm:" + s
+	}
 	if cs.SigVar != "" && cs.SigVar != "valid" {
 		s += ":sig=" + cs.SigVar
 	}
@@ -505,6 +567,9 @@ func (c *checker) signature(cs caseSpec, o outcome) string {
 func (c *checker) evalCase(cs caseSpec) {
 	o := c.deliver(cs)
 	c.stage[o.Res.Stage]++
+	if o.Res.Stage == "panic" {
+		c.panics = append(c.panics, cs.String()+": "+o.Res.Err.Error())
+	}
 	if o.Res.OK() {
 		c.accepted++
 	}
@@ -520,7 +585,11 @@ func (c *checker) evalCase(cs caseSpec) {
 	c.r.Case(key)
 	if len(o.Viol) > 0 {
 		min, mo := c.shrink(cs, o)
-		c.r.Violate(c.signature(min, mo), c.describe(min, mo), min)
+		sig := c.signature(min, mo)
+		c.r.Violate(sig, c.describe(min, mo), min)
+		if cs.Variant == "wasm" {
+			c.wasmForgeable[shortType(cs.Type)] = true
+		}
 	}
 	// the fee grant must be honoured for the plain "act for B" case
 	if cs.Variant == "grant" && o.Res.Stage == "ante" {
@@ -564,7 +633,7 @@ func (c *checker) enumerate() {
 
 	variants := []string{"plain"}
 	if r.Thorough() {
-		variants = append(variants, "grant")
+		variants = append(variants, "grant", "wasm")
 	}
 	deadline := r.Deadline(150*time.Second, 25*time.Minute)
 	fieldReport := map[string][]string{}
@@ -576,9 +645,10 @@ func (c *checker) enumerate() {
 		}
 		for _, variant := range variants {
 			for _, sv := range c.e.variantsOf(url) {
+				acts := c.actorsOf(variant)
 				n := 1
 				for range fs {
-					n *= len(c.e.actors)
+					n *= len(acts)
 				}
 				for i := 0; i < n; i++ {
 					if time.Now().After(deadline) {
@@ -588,8 +658,8 @@ func (c *checker) enumerate() {
 					cs := caseSpec{Type: url, Variant: variant, SigVar: sv.Name, Assign: map[string]string{}}
 					x := i
 					for _, f := range fs {
-						cs.Assign[f.Path] = c.e.actors[x%len(c.e.actors)].Name
-						x /= len(c.e.actors)
+						cs.Assign[f.Path] = acts[x%len(acts)].Name
+						x /= len(acts)
 					}
 					c.evalCase(cs)
 					total++
@@ -612,6 +682,17 @@ done:
 	r.Extra["result_stage"] = st
 	r.Extra["unattributed_changes"] = c.unattrib
 	r.Extra["exemptions_used"] = c.exempted
+	if len(c.panics) > 0 {
+		r.Extra["handler_panics_recovered"] = c.panics
+	}
+	if len(c.wasmForgeable) > 0 {
+		var ts []string
+		for t := range c.wasmForgeable {
+			ts = append(ts, t)
+		}
+		sort.Strings(ts)
+		r.Extra["wasm_message_types_with_forgeable_principal"] = ts
+	}
 }
 
 // legit delivers the template as its legitimate principal would.
